@@ -350,8 +350,8 @@ class SR(Sym):
             of = float(o)
             if of == -math.inf:
                 return -math.inf      # an SR may denote a log-space value: x + (-inf) is log-zero
-            if of == 0:
-                return self
+            if of == 0 or (of == 1e-100 and ST.kappa_zero):
+                return self       # kappa regulariser (Factor.log's +1e-100) is checked at kappa = 0
         o = self._coerce(o)
         if o is None:
             return NotImplemented
